@@ -71,13 +71,34 @@ def _prune_cache():
         pass
 
 
+def _sweep_stale():
+    """Remove scratch trees left behind by checks that were killed (their owner process is gone)."""
+    try:
+        names = os.listdir(SCRATCH_ROOT)
+    except OSError:
+        return
+    for name in names:
+        d = os.path.join(SCRATCH_ROOT, name)
+        if not (name.startswith('sknverif-normal-') or name.startswith('sknverif-checked-')):
+            continue
+        try:
+            pid = int(open(os.path.join(d, '.owner')).read().strip())
+        except (OSError, ValueError):
+            continue
+        if not os.path.exists('/proc/%d' % pid):
+            shutil.rmtree(d, True)
+
+
 def build_impl(variant='normal', keep=False):
     """Copy /repo/sknetwork (sources only) to scratch, build the extension modules, return the scratch dir.
 
     variant 'normal': the repository's own flags.
     variant 'checked': every boundscheck(False)/wraparound(False) flipped to True, -O1 -D_GLIBCXX_ASSERTIONS.
     """
+    _sweep_stale()
     scratch = tempfile.mkdtemp(prefix='sknverif-%s-' % variant, dir=SCRATCH_ROOT)
+    with open(os.path.join(scratch, '.owner'), 'w') as fh:
+        fh.write(str(os.getpid()))
     if not keep:
         atexit.register(shutil.rmtree, scratch, True)
     src = os.path.join(REPO, 'sknetwork')
